@@ -141,6 +141,11 @@ impl FileSystem for MemoryFS {
     fn read_dir(&self, path: &str) -> VfsResult<Box<dyn Iterator<Item = String> + Send>> {
         let prefix = format!("{}/", path);
         let handle = self.handle.read().unwrap();
+        if let Some(file) = handle.files.get(path) {
+            if file.file_type != VfsFileType::Directory {
+                return Err(VfsErrorKind::Other("Not a directory".into()).into());
+            }
+        }
         let mut found_directory = false;
         #[allow(clippy::needless_collect)] // need collect to satisfy lifetime requirements
         let entries: Vec<_> = handle
